@@ -327,11 +327,11 @@ def run_hard3(ctx):
         w += [km_general(20, 4), km_general(21, 4), km_general(20, 5, pad=2), eps_cube(18, 0.25), eps_cube(19, 0.375), eps_cube(20, 0.25)]
     # explicit limits around the needed count (reference count measured on the unlimited run of the same LP)
     lim = []
-    for base_case in (km_general(15, 4), km_general(16, 5), eps_cube(14, 0.25)):
+    for base_case in (km_general(15, 4), eps_cube(14, 0.25)) + ((km_general(16, 5),) if thorough else ()):
         res, p1, p2 = _count_work(base_case)
         need = p1 + p2
         if res[0] == "ok" and res[1].status.name == "OPTIMAL":
-            for mi in sorted({need - 1, need, need + 1, 2 * need, 4096, 2048, 1024, 10000, 99999, 100001}):
+            for mi in sorted({need - 1, need, need + 1, 2048, 4096, 10000, 100001} | ({2 * need, 1024, 99999} if thorough else set())):
                 if mi >= 0:
                     lim.append({**copy.deepcopy(base_case), "max_iter": mi, "needs": need, "family": base_case["family"] + "+limit"})
     w += lim
